@@ -197,6 +197,21 @@ func randInvalidCfg(rng *rand.Rand, n int) (*CfgSpec, []string) {
 			inj.f(rng, c)
 			names = append(names, inj.name)
 		}
+		// occasionally long lists: repeated valid and invalid atoms far beyond a handful of entries
+		if rng.IntN(12) == 0 {
+			for k := 20 + rng.IntN(40); k > 0; k-- {
+				switch rng.IntN(4) {
+				case 0:
+					insertAt(rng, &c.Origins, choose(rng, append(append([]OAtom{}, secureOriginAtoms...), invalidOriginAtoms...)))
+				case 1:
+					insertAt(rng, &c.Methods, choose(rng, append(append([]MAtom{}, validMethodAtoms...), forbiddenMethodAtoms...)))
+				case 2:
+					insertAt(rng, &c.ReqHdrs, choose(rng, append(append([]HAtom{}, validReqHdrAtoms...), forbiddenReqHdrAtoms...)))
+				case 3:
+					insertAt(rng, &c.RespHdrs, choose(rng, append(append([]HAtom{}, validRespHdrAtoms...), prohibitedRespHdrAtoms...)))
+				}
+			}
+		}
 		if len(c.violations()) > 0 {
 			return c, names
 		}
